@@ -86,22 +86,9 @@ fn run_table(t: &Table, lname: &str, level: P, rep: &mut Report, seen: &mut Hash
     let mut moved = vec![0u8; max + 128];
     let base = (64 - (moved.as_ptr() as usize % 64)) % 64;
     for (j, &(n, exp)) in t.expected.iter().enumerate() {
-        if j % 3 == 0 {
-            let off = base + if j % 2 == 0 { 1 } else { 9 };
-            moved[off..off + n].copy_from_slice(&t.data[..n]);
-            let got = vcommon::catch(|| t.mode.oneshot(&moved[off..off + n]));
-            rep.inc("evaluations");
-            rep.inc("misaligned_inputs");
-            if got != Ok(exp) {
-                let mut rj = case_json(&t.mode, &t.stream, lname, n);
-                rj["expected"] = json!(vcommon::hex(&exp));
-                rj["observed"] = json!(format!("{:?}", got.map(|h| vcommon::hex(&h))));
-                rj["input_address_mod_64"] = json!(off - base);
-                rep.violation("oneshot:misaligned-input", format!("{} of {} bytes of stream {} at level {} starting {} bytes past a 64-byte boundary differs from the specification (or panics)", t.mode.name(), n, t.stream, lname, off - base), rj);
-            }
-        }
         let input = &t.data[..n];
         let got = vcommon::catch(|| t.mode.oneshot(input));
+        let plain_ok = got == Ok(exp);
         rep.inc("evaluations");
         rep.inc("spec_comparisons");
         if n > 0 {
@@ -131,6 +118,21 @@ fn run_table(t: &Table, lname: &str, level: P, rep: &mut Report, seen: &mut Hash
                     format!("{} of {} bytes panics at level {}: {}", t.mode.name(), n, lname, msg),
                     rj,
                 );
+            }
+        }
+        // (only where the plain call is right: otherwise the report above already says what is wrong)
+        if j % 3 == 0 && plain_ok {
+            let off = base + if j % 2 == 0 { 1 } else { 9 };
+            moved[off..off + n].copy_from_slice(&t.data[..n]);
+            let got = vcommon::catch(|| t.mode.oneshot(&moved[off..off + n]));
+            rep.inc("evaluations");
+            rep.inc("misaligned_inputs");
+            if got != Ok(exp) {
+                let mut rj = case_json(&t.mode, &t.stream, lname, n);
+                rj["expected"] = json!(vcommon::hex(&exp));
+                rj["observed"] = json!(format!("{:?}", got.map(|h| vcommon::hex(&h))));
+                rj["input_address_mod_64"] = json!(off - base);
+                rep.violation("oneshot:misaligned-input", format!("{} of {} bytes of stream {} at level {} starting {} bytes past a 64-byte boundary differs from the specification (or panics)", t.mode.name(), n, t.stream, lname, off - base), rj);
             }
         }
     }
